@@ -26,10 +26,16 @@ def gen_header(rng, nloc=None, calllen=None, call_chars=CALL_CHARS, trailing=b""
     locs = b"".join(b"-" + digits(rng, 6) for _ in range(nloc))
     tttt = digits(rng, 4)
     jjj = b"%03d" % rng.range(1, 366) + b"%02d" % rng.below(24) + b"%02d" % rng.below(60)
+    special_call = None
     if calllen is None:
         calllen = rng.range(3, 8)
+        if call_chars is CALL_CHARS and rng.chance(1, 12):
+            # callsigns around the Environment Canada rule (ORG WXR and a callsign that BEGINS "EC/")
+            special_call = rng.choice([b"EC/GC/CA", b"KEC/NWS", b"WXKEC/", b"XEC/", b"EC/XY", b"AEC/B", b"EC/", b"EC//"])
     call = bytes(rng.choice(call_chars) for _ in range(calllen))
     call = call.replace(b"-", b"/")
+    if special_call is not None:
+        call = special_call
     return b"ZCZC-" + org + b"-" + evt + locs + b"+" + tttt + b"-" + jjj + b"-" + call + b"-" + trailing
 
 
